@@ -18,9 +18,24 @@ CLAIMED = {
  "C05": ("stateful PBT with a diff-driven oracle: every byte that changed must be dirty in the owning bitmap",
          "for generated levels, page sizes, bitmap flavours, derivation chains and histories with resets, no write leaves a changed byte clean; failing descriptor reads report their whole target",
          "byte diff through raw pointers is independent of what the library claims to have written", "4 C05"),
+ "C06": ("exhaustive enumeration of (entry point x length x guest/local alignment) against a trace oracle of the primitive accesses (hook H1); atomic-API enumeration; threaded tearing detector with fixed iteration counts",
+         "for every entry point that funnels into the byte-copy helper and every length 0..=24 and address alignment class, an aligned 1/2/4/8-byte transfer is requested as exactly one access of that width; misaligned atomic accesses are refused at every container alignment; a black-box flip/observe run cross-checks",
+         "hook observes requested accesses; one aligned volatile access <= 8 bytes assumed to be one machine access; tearing detector does not own the schedule (corroborating only)", "4 C06"),
+ "C07": ("extreme-input PBT over every public access/query entry point, in builds with and without overflow checks and in the xen build; panics caught per case, crashes/hangs attributed by worker isolation and watchdog",
+         "no generated call with addresses/lengths/counts from the full 64-bit range panics, aborts, overflows in checked builds or hangs",
+         "documented program-logic panics excluded by construction (listed in evidence assumptions); hang = no result within the watchdog, reproduced from the recorded tape", "4 C07"),
  "C09": ("model-based stateful PBT: BTreeSet model compared over the whole index range after every step",
          "histories of all public bitmap operations incl. enlarge, clone and nested slices behave like a set of page numbers",
          "BTreeSet model; wrapping slice offsets are don't-care by documentation", "4 C09"),
+ "C10": ("model-based stateful PBT over a growing list of maps; every earlier map re-inspected after every step",
+         "construction, insertion and removal fail with the documented error or return a sorted disjoint map equal to the old set +- one region; earlier maps, clones and removed-region handles keep reaching the same tagged memory",
+         "sorted-list model; base+size == 2^64 is a don't-care", "4 C10"),
+ "C13": ("differential PBT: identical call sequences on the volatile adapter and on its std::io counterpart",
+         "for every adapter the crate provides, counts, bytes landed, stream positions/sink contents and error kinds agree with std after every call of a generated sequence; canaries show the buffer bounds are respected",
+         "std::io adapters as reference; state after a failed exact call not compared (unspecified by std)", "4 C13"),
+ "C14": ("fault-script PBT: generated per-call behaviours of a harness stream, judged by conservation invariants over the stream log and memory",
+         "under generated scripts of full/short/zero/interrupted/hard-error behaviours, interruptions are retried, errors end and are reported, every delivered byte is stored once in order, exact forms succeed iff the full count moved",
+         "harness-implemented stream with position-determined content; kernel EINTR not injected", "4 C14"),
  "C16": ("stateful PBT with a full bitmap snapshot before/after every operation",
          "newly dirty pages are confined to the pages overlapping what the operation wrote; read-type and rejected operations mark nothing; only the failing descriptor read may mark its whole target",
          "written ranges computed from documented transfer semantics (themselves checked by C03/C04)", "4 C16"),
